@@ -159,4 +159,32 @@ package lsm
 //@   requires [fresh-walk] l0Searches == 0 && !l0OrderBroken
 //@   ensures [newest-first] !l0OrderBroken
 //@   ensures [found-means-some-table-hit] result1 == nil ==> result != nil && l0Searches > 0
+//@   modifies ghost(l0Searches), ghost(l0LastSearchedFid), ghost(l0OrderBroken)
 //@   loop 1 invariant [descending] lh != nil && !l0OrderBroken && -1 <= i && i < len(lh.tables) && (l0Searches > 0 ==> (forall j int :: 0 <= j && j <= i && j < len(lh.tables) && lh.tables[j] != nil ==> lh.tables[j].fid < l0LastSearchedFid)) && l0Searches >= 0 && (best != nil ==> l0Searches > 0) && (forall a int, b int :: 0 <= a && a < b && b < len(lh.tables) && lh.tables[a] != nil && lh.tables[b] != nil ==> lh.tables[a].fid < lh.tables[b].fid)
+
+// C01 kernel (levels 1+): within a level the ingest buffer (newer data parked on top of
+// the level) is consulted BEFORE the main tables, and both share one version floor - so
+// on a version tie the ingest-buffer value wins over the older main-table value.
+//@ ghost var ingestSearches Int
+//@ ghost var mainSearches Int
+//@ ghost var mainSawIngest Int
+//@ func (*levelHandler).searchIngestSST
+//@   trusted
+//@   ghost ingestSearches = ingestSearches + 1
+//@   ensures [hit-raises-the-version-strictly] result1 == nil ==> result != nil && *maxVersion > old(*maxVersion)
+//@   ensures [miss-keeps-the-version] result1 != nil ==> *maxVersion == old(*maxVersion)
+//@   modifies *maxVersion
+//@ func (*levelHandler).searchLNSST
+//@   trusted
+//@   ghost mainSearches = mainSearches + 1
+//@   ghost mainSawIngest = ingestSearches
+//@   ensures [hit-raises-the-version-strictly] result1 == nil ==> result != nil && *maxVersion > old(*maxVersion)
+//@   ensures [miss-keeps-the-version] result1 != nil ==> *maxVersion == old(*maxVersion)
+//@   modifies *maxVersion
+//@ func (*levelHandler).Get
+//@   property C01
+//@   requires lh != nil
+//@   requires [level-0-in-creation-order] lh.levelNum == 0 ==> l0Searches == 0 && !l0OrderBroken && (forall i int, j int :: 0 <= i && i < j && j < len(lh.tables) && lh.tables[i] != nil && lh.tables[j] != nil ==> lh.tables[i].fid < lh.tables[j].fid)
+//@   ensures [ingest-buffer-before-main-tables] lh.levelNum != 0 && mainSearches > old(mainSearches) ==> mainSawIngest > old(ingestSearches)
+//@   ensures [both-consulted-unless-error] lh.levelNum != 0 && result1 == nil ==> ingestSearches == old(ingestSearches) + 1 && mainSearches == old(mainSearches) + 1
+//@   ensures [found-means-a-source-hit] result1 == nil ==> result != nil
